@@ -228,17 +228,24 @@ Fixpoint rfc_program (c : cfg) (feq : Z -> Z -> bool) (d : option jval) (l : lis
         JBP_INCREMENT  "Value increment"
         JBP_ADD_CREATE "Create intermediate object nodes for missing path segments"
         JBP_SWAP       "Swap values of two nodes" *)
+(* replace the value of an existing member / array element (the target of `increment`; "-" is read by c_look as everywhere) *)
+Definition set_here (c : cfg) (x : jval) (parent : jval) (s : sseg) : option jval :=
+  match parent with
+  | JObj ms => match lookup s ms with Some _ => Some (JObj (set_member s x ms)) | None => None end
+  | JArr l => match aidx c l s with Some i => Some (JArr (firstn i l ++ x :: skipn (S i) l)) | None => None end
+  | _ => None
+  end.
 Definition ext_increment (c : cfg) (fadd : Z -> Z -> Z) (fofi ftoi : Z -> Z) (dv : jval) (path : list sseg) (v : jval)
   : option jval :=
   match jget c dv path with
   | Some (JI64 a) => match v with
-                     | JI64 b => jmod c dv path (add_here c (JI64 (sw 64 (a + b))))
-                     | JF64 b => jmod c dv path (add_here c (JI64 (sw 64 (a + ftoi b))))
+                     | JI64 b => jmod c dv path (set_here c (JI64 (sw 64 (a + b))))
+                     | JF64 b => jmod c dv path (set_here c (JI64 (sw 64 (a + ftoi b))))
                      | _ => None
                      end
   | Some (JF64 a) => match v with
-                     | JI64 b => jmod c dv path (add_here c (JF64 (fadd a (fofi b))))
-                     | JF64 b => jmod c dv path (add_here c (JF64 (fadd a b)))
+                     | JI64 b => jmod c dv path (set_here c (JF64 (fadd a (fofi b))))
+                     | JF64 b => jmod c dv path (set_here c (JF64 (fadd a b)))
                      | _ => None
                      end
   | _ => None
